@@ -248,3 +248,113 @@ Proof.
   { unfold layout_ok in LO. apply andb_true_iff in LO. tauto. }
   unfold run in *. rewrite (fc_rows_asc_is_read _ _ s current C O). apply (read_series_core _ _ s C O).
 Qed.
+
+(* ------------------------------------------------------------------------------------------------------------ *)
+(* the repaired DESCENDING walk: the blocks, each delivered newest row first, are the read in descending order *)
+Definition fc_stream_desc (L : layout) (s : Z) : list row :=
+  concat (map (@rev row) (fc_walk_desc s (fc_newer L s) (rev (ord L)))).
+
+Lemma min_fold_none : forall s tab, fold_left (mnstep s) tab None = None -> sel s tab = [].
+Proof.
+  induction tab as [| x tab IH]; intros H; auto. cbn [fold_left] in H. unfold sel. cbn [filter].
+  unfold mnstep at 2 in H. destruct (fst (fst x) =? s) eqn:E.
+  - destruct (min_fold_some s tab (snd (fst x))) as (m & Em & _). congruence.
+  - apply IH; auto.
+Qed.
+Lemma min_time_in_none : forall s tab, min_time_in s tab = None -> sel s tab = [].
+Proof. intros. apply min_fold_none. rewrite <- min_time_in_fold. auto. Qed.
+Lemma min_time_in_bound : forall s tab t fs mn, In ((s, t), fs) tab -> min_time_in s tab = Some mn -> mn <= t.
+Proof.
+  intros s tab t fs mn I E. destruct (min_time_in_le s tab t fs I) as (m & Em & L). congruence.
+Qed.
+
+Definition before_ok (x f : file) : bool :=
+  forallb (fun s => match max_time_in s (f_tab x), min_time_in s (f_tab f) with
+                    | Some a, Some b => a <? b | _, _ => true end) (series_of (f_tab x)).
+Lemma ord_ok_snoc : forall l f, ord_ok_from (l ++ [f]) = true ->
+  ord_ok_from l = true /\ forall x, In x l -> before_ok x f = true.
+Proof.
+  induction l as [| x l IH]; intros f H.
+  - split; [reflexivity | intros x []].
+  - cbn [app ord_ok_from] in H. apply andb_true_iff in H. destruct H as [H1 H2].
+    rewrite forallb_app in H1. apply andb_true_iff in H1. destruct H1 as [H1 H3].
+    destruct (IH f H2) as [A B]. split.
+    + cbn [ord_ok_from]. rewrite H1, A. reflexivity.
+    + intros y [<- | I]; auto. cbn [forallb] in H3. apply andb_true_iff in H3. destruct H3 as [H3 _]. exact H3.
+Qed.
+
+Lemma ord_cat_app : forall s a b, ord_cat s (a ++ b) = ord_cat s a ++ ord_cat s b.
+Proof. intros. unfold ord_cat. rewrite map_app, concat_app. reflexivity. Qed.
+
+Lemma filter_lt_ge : forall mn (M : table),
+  filter (le_time (mn - 1)) M = filter (fun x => negb (ge_time mn x)) M /\
+  filter (fun x => negb (le_time (mn - 1) x)) M = filter (ge_time mn) M.
+Proof.
+  intros mn M. split; apply filter_ext; intro x; unfold le_time, ge_time; lia.
+Qed.
+
+Lemma walk_desc_is_over : forall s rfiles M, wf_table M -> in_series s M -> wf_files rfiles ->
+  ord_ok_from (rev rfiles) = true ->
+  concat (map (@rev row) (fc_walk_desc s M rfiles)) = rev (over M (ord_cat s (rev rfiles))).
+Proof.
+  induction rfiles as [| f r IH]; intros M WM SM W H.
+  - cbn. rewrite app_nil_r, over_nil_r. reflexivity.
+  - destruct r as [| g r'].
+    + cbn. rewrite !app_nil_r. reflexivity.
+    + inversion W as [| ? ? Wf Wr]; subst.
+      change (rev (f :: g :: r')) with (rev (g :: r') ++ [f]) in *.
+      destruct (ord_ok_snoc _ _ H) as [H2 HB].
+      assert (Wold : wf_files (rev (g :: r'))).
+      { unfold wf_files. apply Forall_rev. exact Wr. }
+      change (fc_walk_desc s M (f :: g :: r')) with
+        (match min_time_in s (f_tab f) with
+         | None => fc_walk_desc s M (g :: r')
+         | Some mn => over (filter (ge_time mn) M) (sel s (f_tab f))
+                      :: fc_walk_desc s (filter (fun x => negb (ge_time mn x)) M) (g :: r')
+         end).
+      rewrite ord_cat_app. change (ord_cat s [f]) with (sel s (f_tab f) ++ []). rewrite app_nil_r.
+      destruct (min_time_in s (f_tab f)) as [mn |] eqn:E.
+      * cbn [map concat]. rewrite IH; auto.
+        -- destruct (ord_cat_wf (rev (g :: r')) s Wold H2) as [WR SR].
+           destruct (filter_lt_ge mn M) as [F1 F2].
+           rewrite (over_pivot s (mn - 1) M (ord_cat s (rev (g :: r'))) (sel s (f_tab f))); auto.
+           ++ rewrite rev_app_distr. rewrite F1, F2. reflexivity.
+           ++ rewrite sel_kfilter. apply wf_kfilter; auto.
+           ++ apply in_series_sel.
+           ++ intros k v I. unfold ord_cat in I. apply in_concat in I. destruct I as (t & It & I).
+              apply in_map_iff in It. destruct It as (y & <- & Iy).
+              apply in_sel in I. destruct I as [I Es]. destruct k as [a b]. cbn [fst snd] in *. subst a.
+              destruct (max_time_in_ge s (f_tab y) b v I) as (mx & Emx & Lmx).
+              specialize (HB y Iy). unfold before_ok in HB. rewrite forallb_forall in HB.
+              specialize (HB s (max_time_in_some_series s _ mx Emx)). rewrite Emx, E in HB. lia.
+           ++ intros k v I. apply in_sel in I. destruct I as [I Es]. destruct k as [a b]. cbn [fst snd] in *. subst a.
+              pose proof (min_time_in_bound s _ b v mn I E). lia.
+        -- apply (wf_kfilter (fun k => negb (mn <=? snd k))); auto.
+        -- apply in_series_filter; auto.
+      * rewrite (min_time_in_none s _ E). rewrite app_nil_r. apply IH; auto.
+Qed.
+
+Lemma fc_stream_desc_is_read : forall L raw s, Core L raw -> ord_ok_from (ord L) = true ->
+  fc_stream_desc L s = rev (read_series L s).
+Proof.
+  intros L raw s C H. destruct C as [Wm Ws Wu Wo Wr A]. unfold fc_stream_desc, fc_newer, read_series.
+  rewrite !sort_dedup_lww. change (ooo_prod (ooo L)) with (prod (ooo L)).
+  assert (W1 : wf_table (sel s (lww_table (mem L)))) by (rewrite sel_kfilter; apply wf_kfilter; apply wf_lww; auto).
+  assert (W2 : wf_table (sel s (lww_table (snap L)))) by (rewrite sel_kfilter; apply wf_kfilter; apply wf_lww; auto).
+  assert (W3 : wf_table (sel s (prod (ooo L)))) by (rewrite sel_kfilter; apply wf_kfilter; apply wf_prod; auto).
+  destruct (ord_cat_wf (ord L) s Wo H) as [W4 _].
+  rewrite walk_desc_is_over; auto 6 using wf_over.
+  - rewrite rev_involutive. rewrite !over_assoc; auto using wf_over.
+  - repeat apply in_series_over; apply in_series_sel.
+  - unfold wf_files. apply Forall_rev. exact Wo.
+  - rewrite rev_involutive. exact H.
+Qed.
+
+Lemma fc_stream_desc_is_lww : forall h s, ops_allowed h = true ->
+  fc_stream_desc (run false h) s = rev (sel s (lww_table (writes_of h))).
+Proof.
+  intros h s A. destruct (run_inv h init [] inv_init eq_refl A) as [[C _] LO].
+  assert (O : ord_ok_from (ord (run false h)) = true).
+  { unfold layout_ok in LO. apply andb_true_iff in LO. tauto. }
+  unfold run in *. rewrite (fc_stream_desc_is_read _ _ s C O). f_equal. apply (read_series_core _ _ s C O).
+Qed.
